@@ -468,14 +468,14 @@ Proof. reflexivity. Qed.
 Lemma rd_arr_S p f cnt bs acc : rd_arr p (S f) cnt bs acc =
   if cnt =? 0 then Ok (GArr (rev acc), bs)
   else '(v, r) <- rd_intf p f bs ;; rd_arr p f (cnt - 1) r (v :: acc).
-Proof. reflexivity. Qed.
+Proof. rewrite rev_alt. reflexivity. Qed.
 
 Lemma rd_map_S p f cnt bs acc : rd_map p (S f) cnt bs acc =
   if cnt =? 0 then Ok (GMap (rev acc), bs)
   else '(k, r1) <- rd_rec_key p bs ;;
        '(v, r2) <- rd_intf p f r1 ;;
        rd_map p f (cnt - 1) r2 ((k, v) :: acc).
-Proof. reflexivity. Qed.
+Proof. rewrite rev_alt. reflexivity. Qed.
 
 (* rd_intf on a byte whose numeric value is known: expose the if-chain on a variable *)
 Ltac dispatch H :=
